@@ -18,6 +18,12 @@
  * Exit: kill(self, $EXECHELPER_SIGNAL) if set, else exit($EXECHELPER_EXIT),
  * default 0. Exit status 98 means the helper itself could not work
  * (EXECHELPER_OUT unset or not writable).
+ *
+ * Outcome by name: when the helper is run through a link (or copy) whose
+ * name ends in "exit-<N>" or "signal-<N>" (basename of argv[0]), that is the
+ * outcome whatever the environment says, so that one configuration can name
+ * several commands with different outcomes. A signal is raised with its
+ * default action and without a core file.
  */
 #define _GNU_SOURCE
 #include <dirent.h>
@@ -29,6 +35,7 @@
 #include <stdlib.h>
 #include <string.h>
 #include <unistd.h>
+#include <sys/resource.h>
 
 struct buf {
 	char	*p;
@@ -85,6 +92,19 @@ intcmp(const void *a, const void *b)
 	int x = *(const int *)a, y = *(const int *)b;
 
 	return (x > y) - (x < y);
+}
+
+/* Terminate by the default action of the signal, without a core file. */
+static void
+die_of(int sig)
+{
+	struct rlimit rl = { 0, 0 };
+
+	setrlimit(RLIMIT_CORE, &rl);
+	signal(sig, SIG_DFL);
+	kill(getpid(), sig);
+	/* Only reached if the signal does not terminate. */
+	_exit(128 + sig);
 }
 
 int
@@ -196,15 +216,20 @@ main(int argc, char *argv[])
 		return 98;
 	close(fd);
 
-	p = getenv("EXECHELPER_SIGNAL");
-	if (p != NULL && *p != '\0') {
-		int sig = atoi(p);
+	{
+		/* outcome by name */
+		const char *base = strrchr(argv[0], '/');
+		const char *q;
 
-		signal(sig, SIG_DFL);
-		kill(getpid(), sig);
-		/* Only reached if the signal does not terminate. */
-		return 128 + sig;
+		base = base != NULL ? base + 1 : argv[0];
+		if ((q = strstr(base, "exit-")) != NULL && q[5] >= '0' && q[5] <= '9')
+			return atoi(q + 5);
+		if ((q = strstr(base, "signal-")) != NULL && q[7] >= '0' && q[7] <= '9')
+			die_of(atoi(q + 7));
 	}
+	p = getenv("EXECHELPER_SIGNAL");
+	if (p != NULL && *p != '\0')
+		die_of(atoi(p));
 	p = getenv("EXECHELPER_EXIT");
 	return p != NULL && *p != '\0' ? atoi(p) : 0;
 }
